@@ -1,5 +1,5 @@
 (* C03 - Everything the authenticator emits is CTAP2 canonical CBOR. *)
-From Ctap Require Import Base Schema Typed Inst Tables Canonical C03P.
+From Ctap Require Import Base Schema Wire Typed Procs Inst Tables ProcTables Canonical WireP SerP FramingP C03P.
 Local Open Scope string_scope.
 Local Open Scope Z_scope.
 
@@ -12,6 +12,47 @@ Proof. exact spec_decl_order. Qed.
 Theorem c03_cose_label_order : all_pairs key_lt cose_emit_order = true.
 Proof. exact cose_order. Qed.
 
+(* THE PROPERTY for the encoder: in every feature configuration, for EVERY type and EVERY value, whatever
+   the typed encoder emits is canonical CBOR at every nesting level (predicate canon, Proofs/SerP.v: heads
+   written by the shortest-head writer, definite lengths only, no tags / floats / undefined, map keys
+   strictly increasing in canonical order - hence no duplicates) *)
+Theorem c03_all_structs_ordered : forallb (fun f => structs_ordered (spec_env f)) all_feats = true.
+Proof. vm_compute. reflexivity. Qed.
+
+Theorem c03_encoder_canonical : forall f, In f all_feats ->
+  forall t v b, encode (spec_env f) t v = Some b -> canon b.
+Proof.
+  intros f Hf. apply encode_canon.
+  exact (forallb_In (fun f => structs_ordered (spec_env f)) all_feats f c03_all_structs_ordered Hf).
+Qed.
+
+(* every encoded response body (when it is not dropped as the empty map) and the extension map appended
+   to authenticator data are outputs of that encoder *)
+Theorem c03_response_body_canonical : forall f variant payload n prior t b, In f all_feats ->
+  serialising spec_tables variant t -> encode (spec_env f) t payload = Some b -> blen b + 1 <= n ->
+  response_serialize spec_tables (spec_env f) variant payload n prior = Ok (msg b) /\ canon b.
+Proof.
+  intros f variant payload n prior t b Hf Hs He Hn. split.
+  - assert (1 <= n) by (pose proof (blen_nonneg b); Lia.lia).
+    erewrite response_serialize_ser by eassumption.
+    destruct (blen b <=? n - 1) eqn:E; [reflexivity|]. apply Z.leb_gt in E. Lia.lia.
+  - eapply c03_encoder_canonical; eassumption.
+Qed.
+
+(* shortest heads at the five width thresholds *)
+Theorem c03_shortest_heads : forall maj v, 0 <= v < 18446744073709551616 ->
+  put_head maj v =
+    if v <=? 23 then [maj * 32 + v]
+    else if v <=? 255 then [maj * 32 + 24; v]
+    else if v <=? 65535 then (maj * 32 + 25) :: be 2 v
+    else if v <=? 4294967295 then (maj * 32 + 26) :: be 4 v
+    else (maj * 32 + 27) :: be 8 v.
+Proof. exact put_head_cases. Qed.
+
+(* the same for the environment regenerated from /repo *)
+Theorem c03_generated_structs_ordered : forallb (fun f => structs_ordered (gen_env f)) all_feats = true.
+Proof. vm_compute. reflexivity. Qed.
+
 (* tie to the source *)
 Theorem c03_generated_conforms :
   forallb (fun f => env_conforms_role decl_ser (gen_env f) (spec_env f)) all_feats = true.
@@ -20,6 +61,11 @@ Proof. exact generated_ser_conforms. Qed.
 Theorem c03_generated_decl_order : forallb (fun f => decl_order_canonical (gen_env f)) all_feats = true.
 Proof. exact generated_decl_order. Qed.
 
+Eval vm_compute in "ASSUMPTIONS c03_all_structs_ordered". Print Assumptions c03_all_structs_ordered.
+Eval vm_compute in "ASSUMPTIONS c03_encoder_canonical". Print Assumptions c03_encoder_canonical.
+Eval vm_compute in "ASSUMPTIONS c03_response_body_canonical". Print Assumptions c03_response_body_canonical.
+Eval vm_compute in "ASSUMPTIONS c03_shortest_heads". Print Assumptions c03_shortest_heads.
+Eval vm_compute in "ASSUMPTIONS c03_generated_structs_ordered". Print Assumptions c03_generated_structs_ordered.
 Eval vm_compute in "ASSUMPTIONS c03_decl_order_spec". Print Assumptions c03_decl_order_spec.
 Eval vm_compute in "ASSUMPTIONS c03_cose_label_order". Print Assumptions c03_cose_label_order.
 Eval vm_compute in "ASSUMPTIONS c03_generated_conforms". Print Assumptions c03_generated_conforms.
